@@ -89,3 +89,22 @@ impl MulSpecImpl<DMatrix> for DMatrix {
 }
 impl core::ops::Mul<DMatrix> for DMatrix { type Output = DMatrix;
     #[verifier::external_body] fn mul(self, rhs: DMatrix) -> (r: DMatrix) { unimplemented!() } }
+
+// ---- std iterator sums over f64 slices (R12 targets; assumed std semantics of iter().sum(), map(..).sum(), zip(..))
+//   I1  v.iter().sum::<f64>()                         = sum_{i<len} v_i            (left fold from 0.0)
+//   I2  v.iter().map(|x| x * x).sum::<f64>()          = sum_{i<len} v_i * v_i
+//   I3  a.iter().zip(b.iter()).map(|(x, y)| x * y).sum::<f64>() = sum_{i<min(len a, len b)} a_i * b_i
+pub open spec fn seq_sum(s: Seq<f64>, n: int) -> real
+    decreases n
+{ if n <= 0 { 0real } else { seq_sum(s, n - 1) + rv(s[n - 1]) } }
+pub open spec fn seq_sum_prod(a: Seq<f64>, b: Seq<f64>, n: int) -> real
+    decreases n
+{ if n <= 0 { 0real } else { seq_sum_prod(a, b, n - 1) + rv(a[n - 1]) * rv(b[n - 1]) } }
+#[verifier::external_body]
+pub fn vf_iter_sum(v: &Vec<f64>) -> (r: f64) ensures rv(r) == seq_sum(v@, v.len() as int) { v.iter().sum::<f64>() }
+#[verifier::external_body]
+pub fn vf_iter_sum_sq(v: &Vec<f64>) -> (r: f64) ensures rv(r) == seq_sum_prod(v@, v@, v.len() as int) { v.iter().map(|x| x * x).sum::<f64>() }
+#[verifier::external_body]
+pub fn vf_iter_sum_prod(a: &Vec<f64>, b: &Vec<f64>) -> (r: f64)
+    ensures rv(r) == seq_sum_prod(a@, b@, if a.len() <= b.len() { a.len() as int } else { b.len() as int })
+{ a.iter().zip(b.iter()).map(|(x, y)| x * y).sum::<f64>() }
